@@ -40,3 +40,4 @@ CFG = {'level': 'exploration',
  'assumptions': ['an all-zero Position in an Error means "no position"',
                  'ref/refmodpos.PlainImportPath is a subset of the valid import paths',
                  'a hang is only reported when the single-case replay also exceeds its cap (driver)']}
+CFG['level_text'] += " The four lexer messages are anchored: the position must be at the '/*', the newline, the unexpected character, or the opening quote of the unterminated string they name, and is never absent."
